@@ -80,7 +80,26 @@ extern "C" int __wrap_close(int fd) {
   int r = __real_close(fd);
   int e = errno;
   CloseLog& l = closelog();
-  if (l.active) l.events.push_back({fd, r == 0 ? 0 : e});
+  if (l.active) {
+    if (r == 0 && l.fault_now()) {
+      // the descriptor is gone; the caller is told EINTR
+      if (l.fault_mode == 2) {
+        int n = ::open("/dev/null", O_RDONLY);
+        if (n >= 0 && n != fd) {
+          ::dup2(n, fd);
+          __real_close(n);
+        }
+        if (n >= 0) l.reused.insert(fd);
+      } else {
+        l.reused.erase(fd);
+      }
+      l.events.push_back({fd, EINTR, true});
+      l.faulted++;
+      errno = EINTR;
+      return -1;
+    }
+    l.events.push_back({fd, r == 0 ? 0 : e, false});
+  }
   errno = e;
   return r;
 }
@@ -582,8 +601,10 @@ static void run_read_fault(const Case& c) {
   Delivery d = r.delivery();
   if (api >= FA_NUM) throw std::logic_error("case: unknown api");
   if (size > (1 << 20) || opsz > (1 << 20) || faults.size() > 16) throw std::logic_error("case outside domain");
-  if (esel > 1) throw std::logic_error("case: unknown errno selector");
-  int err = esel == 0 ? EINTR : EIO;
+  if (esel > 2) throw std::logic_error("case: unknown errno selector");
+  // EAGAIN: what a non-blocking descriptor (make_fd_nonblocking, O_NONBLOCK pipes and sockets) reports while its writer pauses -
+  // nothing consumed, more data later; it is not end of file either
+  int err = esel == 0 ? EINTR : esel == 1 ? EIO : EAGAIN;
   bool seq = !(api == FA_READ_ALL_FD || api == FA_READ_ALL_FILE || api == FA_LOAD_FILE);
   if (seq && api != FA_FGETS && (opsz == 0 || size / opsz > 4000)) throw std::logic_error("case: too many operations");
   std::string content = api == FA_FGETS ? text_bytes(seed, size, 3) : vg::expand(seed, size);
@@ -738,7 +759,7 @@ static void run_read_fault(const Case& c) {
   }
   if (faulted > 0 && (calls >= 2 || any_ok)) ctx().nontrivial_case();
   ctx().cls(cat("read_fault:", nm, faulted == 0 ? ":fault-not-reached" : any_throw ? (any_ok ? ":threw+ok" : ":threw") : ":returned"));
-  ctx().cls(err == EINTR ? "read_fault:EINTR" : "read_fault:EIO");
+  ctx().cls(err == EINTR ? "read_fault:EINTR" : err == EIO ? "read_fault:EIO" : "read_fault:EAGAIN");
   (void)trunc;
 }
 
@@ -1073,7 +1094,12 @@ enum ScopedOp : uint64_t { S_DEFAULT = 0,
   S_OPEN_CSTR = 12,
   S_NUM_OPS = 13 };
 
-// n = [(op, a, b) ...] over 3 slots; an op that does not fit the current state is skipped
+// n = [(op, a, b) ..., optional fault word] over 3 slots; an op that does not fit the current state is skipped.
+// Fault word (present when the length is 1 mod 3): mode = w & 3 (1: close() releases the descriptor but reports EINTR; 2: the
+// number is also re-used at once by an unrelated descriptor), mask = w >> 2 selects the close() calls (see CloseLog). "Close
+// exactly once" is about the number of close() calls on an owned descriptor, whatever the call reports: the expected list of
+// close() calls per operation is the same with and without the fault, a second call on the number is a double close (EBADF)
+// or closes the unrelated descriptor that now has the number.
 static void run_scoped_fd(const Case& c) {
   const int kSlots = 3;
   static const std::string good = [] {
@@ -1088,9 +1114,15 @@ static void run_scoped_fd(const Case& c) {
   std::set<int> live; // owned and not yet closed according to the model
   std::set<int> before = open_fds();
   CloseLog& log = closelog();
-  log.start();
+  uint64_t fault_word = (c.n.size() % 3 == 1) ? c.u(c.n.size() - 1) : 0;
+  if ((fault_word & 3) == 3) throw std::logic_error("case: bad scoped_fd fault word");
+  log.start(static_cast<int>(fault_word & 3), fault_word >> 2);
   struct StopLog {
-    ~StopLog() { closelog().stop(); }
+    ~StopLog() {
+      closelog().stop();
+      for (int fd : closelog().reused) __real_close(fd);
+      closelog().reused.clear();
+    }
   } stop_log;
   size_t log_pos = 0;
   size_t steps = 0, effective = 0;
@@ -1110,16 +1142,22 @@ static void run_scoped_fd(const Case& c) {
     std::vector<int> got;
     for (; log_pos < log.events.size(); log_pos++) {
       const auto& ev = log.events[log_pos];
-      VCHECK(ev.err == 0, "scoped-fd-close-failed", op, ": close(", ev.fd, ") failed with errno ", ev.err, " (double close?)");
+      VCHECK(ev.err == 0 || ev.injected, log.faulted ? "scoped-fd-close-failed:after-close-reported-EINTR" : "scoped-fd-close-failed", op, ": close(", ev.fd, ") failed with errno ", ev.err,
+          log.faulted ? " after an earlier close() released its descriptor and reported EINTR (closed again?)" : " (double close?)");
       got.push_back(ev.fd);
     }
+    // descriptors that took over a released number are unrelated to every scoped_fd: they must still be open
+    for (int fd : log.reused)
+      VCHECK(::fcntl(fd, F_GETFD) != -1, "scoped-fd-closed-unrelated-descriptor", op, " (step ", steps, "): descriptor ", fd, ", opened by someone else after close(", fd,
+          ") released the number and reported EINTR, has been closed");
     std::sort(got.begin(), got.end());
     std::sort(want.begin(), want.end());
     if (got != want) {
       std::string g, w;
       for (int v : got) g += cat(v, " ");
       for (int v : want) w += cat(v, " ");
-      VFAIL(got.size() > want.size() ? "scoped-fd-extra-close" : "scoped-fd-missing-close", op, " (step ", steps, "): closed [", g, "] expected [", w, "]");
+      VFAIL(cat(got.size() > want.size() ? "scoped-fd-extra-close" : "scoped-fd-missing-close", log.faulted ? ":after-close-reported-EINTR" : ""), op, " (step ", steps, "): close() was called on [", g, "] expected [", w, "]",
+          log.faulted ? " (a close() call released its descriptor and reported EINTR)" : "");
     }
     for (int v : want) live.erase(v);
   };
@@ -1262,9 +1300,13 @@ static void run_scoped_fd(const Case& c) {
     expect_closes(want, "final destructor");
   }
   log.stop();
+  uint64_t close_faults = log.faulted;
+  for (int fd : log.reused) __real_close(fd);
+  log.reused.clear();
   VCHECK(live.empty(), "scoped-fd-leak", live.size(), " owned descriptor(s) were never closed");
   VCHECK(open_fds() == before, "scoped-fd-table-changed", "the descriptor table differs from the one before the history");
-  if (effective >= 3 && moved) ctx().nontrivial_case();
+  if ((effective >= 3 && moved) || (effective >= 2 && close_faults)) ctx().nontrivial_case();
+  if (fault_word & 3) ctx().cls(close_faults ? ((fault_word & 3) == 2 ? "scoped_fd:a close() reported EINTR and the number was re-used" : "scoped_fd:a close() reported EINTR") : "scoped_fd:close fault not reached");
 }
 
 // ---------------------------------------------------------------- Poll
@@ -1572,7 +1614,10 @@ static Case gen_read_fault() {
   std::vector<uint64_t> faults;
   uint64_t nf = vg::pick<uint64_t>({1, 1, 1, 2, 3});
   for (uint64_t i = 0; i < nf; i++) faults.push_back(vg::below(vg::pick<uint64_t>({1, 2, 4, 6, 40})));
-  c.N(api).N(kind).N(bufmode).N(size).N(vg::u64()).N(opsz).N(vg::chance(3, 4) ? 0 : 1);
+  uint64_t esel = vg::pick<uint64_t>({0, 0, 0, 1, 2, 2});
+  // (fgets x EAGAIN is a generated class since the repair of phosg::fgets: glibc's ::fgets hands back the characters read so far when
+  // the stream's read fails with EAGAIN, and phosg::fgets used to take that short block for the end of the line)
+  c.N(api).N(kind).N(bufmode).N(size).N(vg::u64()).N(opsz).N(esel);
   c.N(faults.size());
   for (auto v : faults) c.N(v);
   d.put(c);
@@ -1720,6 +1765,8 @@ static Case gen_scoped_fd() {
   Case c("scoped_fd");
   uint64_t steps = 1 + vg::below(14);
   for (uint64_t i = 0; i < steps; i++) c.N(vg::below(S_NUM_OPS)).N(vg::below(3)).N(vg::below(3));
+  // a third of the histories: some close() calls release the descriptor but report EINTR (half of them with the number re-used at once)
+  if (vg::chance(1, 3)) c.N((1 + vg::below(2)) | ((vg::coin() ? ~0ULL : (vg::u64() | vg::u64())) << 2));
   return c;
 }
 
@@ -1982,6 +2029,14 @@ static void enum_read_fault(Enum& e) {
               c.N(1).N(k);
               d.put(c);
               e.exec(c);
+              if (fd_kinds || api == FA_LOAD_FILE || api == FA_PREADX || api == FA_FGETS) {
+                // the same plan with the failing read reporting EAGAIN (a non-blocking descriptor; fgets on a stream over one)
+                Case c2("read_fault");
+                c2.N(api).N(kind).N(0).N(total).N(total * 131 + parts.size()).N(opsz).N(2);
+                c2.N(1).N(k);
+                d.put(c2);
+                e.exec(c2);
+              }
             }
           }
         }
@@ -2119,7 +2174,26 @@ static void enum_scoped(Enum& e) {
     }
     e.exec(c);
   }
-  e.complete(cat("every scoped_fd operation sequence of length ", L, " over two objects"));
+  // close() releases the descriptor but reports EINTR: every sequence of length 3 (thorough) / 2 (quick) over two objects, the fault
+  // on every close() call / on the first one only, with and without immediate re-use of the number
+  int LF = e.thorough() ? 3 : 2;
+  uint64_t totalf = 1;
+  for (int k = 0; k < LF; k++) totalf *= choices;
+  for (uint64_t code = 0; code < totalf && !e.stop; code++) {
+    if (!e.mine(code >> 4)) continue;
+    for (uint64_t word : {1ULL | (~0ULL << 2), 2ULL | (~0ULL << 2), 1ULL | (1ULL << 2), 2ULL | (2ULL << 2)}) {
+      Case c("scoped_fd");
+      uint64_t t = code;
+      for (int k = 0; k < LF; k++) {
+        uint64_t ch = t % choices;
+        t /= choices;
+        c.N(ch / 4).N((ch % 4) / 2).N(ch % 2);
+      }
+      c.N(word);
+      e.exec(c);
+    }
+  }
+  e.complete(cat("every scoped_fd operation sequence of length ", L, " over two objects; every sequence of length ", LF, " x {every close() call, the first, the second} releases its descriptor but reports EINTR x {number left free, number re-used at once}"));
 }
 
 static void enum_unlink(Enum& e) {
